@@ -746,8 +746,13 @@ def draw_config(rng, i):
     cfg = {"modelsDir": "models", "migrationsDir": "migrations", "tableNamingCase": "snake", "columnNamingCase": "snake"}
     if rng.random() < 0.35:
         cfg["prefix"] = "app_"
-    if rng.random() < 0.3:
-        cfg["modelsDir"], cfg["migrationsDir"] = "db/models", "db/migs"
+    # custom directories: the models directory is written by the driver (it must exist to be loaded); of the migrations
+    # directory NOTHING exists beforehand: `revision` has to create the whole chain (nested 2-3 levels, "./" prefix, trailing "/")
+    r = rng.random()
+    if r < 0.45:
+        cfg["modelsDir"] = rng.choice(["db/models", "src/schema/models", "./db/models", "models/"])
+        cfg["migrationsDir"] = rng.choice(["db/migs", "store/history/migs", "./m/igrations/", "deep/a/b/migrations", "hist/ory/",
+                                           "db/migrations"])
     # the two formats are independent settings, each one of json / yaml / yml
     cfg["migrationFormat"] = rng.choice(["json", "yaml", "yml"])
     cfg["modelFormat"] = rng.choice(["json", "yaml", "yml"])
@@ -1592,13 +1597,15 @@ def sibling_layout(rng, tables):
 def run_tree_evolution(hcli, base, idx, evo, seed):
     rng = random.Random(seed * 7919 + idx)
     cfg = {"modelsDir": "models", "migrationsDir": "migrations", "tableNamingCase": "snake", "columnNamingCase": "snake"}
-    if rng.random() < 0.4:
-        cfg["modelExportDir"] = "gen/entities"
+    if rng.random() < 0.5:
+        cfg["modelExportDir"] = rng.choice(["gen/entities", "gen/a/b/entities", "./gen/x/", "src/deep/er/models/"])
+    if rng.random() < 0.3:
+        cfg["modelsDir"] = rng.choice(["db/models", "./src/schema/models/"])
     pdir = os.path.join(base, "t%03d" % idx)
     shutil.rmtree(pdir, ignore_errors=True)
     write_project(pdir, cfg)
     orm = rng.choice(["seaorm", "seaorm", "sqlalchemy", "sqlmodel"])
-    export_arg = rng.choice([None, None, "out"])
+    export_arg = rng.choice([None, None, "out", "out/put/deep", "./o/u/t/"])
     rows = []
     for si, tables in enumerate(evo["steps"]):
         keep = [t for t in tables if rng.random() < 0.85] or tables[:1]
